@@ -129,7 +129,7 @@ def _run(n, scripts, ops, slen):
             i = self.i
             if not runnable(i) or stopped[0]:
                 badnext.append(i)   # advanced while paused / waiting / finished / stopped
-            nexts.append((i, epoch[0]))
+            nexts.append((i, epoch[0], tuple(m_tasks)))
             p = pos[i]
             pos[i] = p + 1
             st = scripts[i * slen + p] if p < slen else 3
@@ -332,13 +332,13 @@ def _run(n, scripts, ops, slen):
     # strict alternation in windows where the runnable set did not change: between two consecutive advances
     # of a task, every other runnable task advanced exactly once
     for a in range(len(nexts)):
-        t, ep = nexts[a]
+        t, ep, members = nexts[a]
         for b in range(a + 1, len(nexts)):
             if nexts[b][1] != ep:
                 break
             if nexts[b][0] == t:
-                between = [x[0] for x in nexts[a + 1:b]]
-                if len(set(between)) != len(between) or t in between:
+                between = sorted(x[0] for x in nexts[a + 1:b])
+                if between != sorted(x for x in members if x != t):
                     return finish(_fail("unfair window %r" % (nexts[a:b + 1],)))
                 break
     return finish(True)
